@@ -1,9 +1,18 @@
-"""C05 -- decided on the shared core machinery (see checks/C01.py and lib/core.py): TLC exhaustive check of
-specs/Pipeline.tla, TLC-generated schedules (spec-mutant counterexamples + simulation) replayed into the real
-pipeline, seeded random runs, every trace validated by TLC against the monitors of specs/PipelineObs.tla.
-The scenario families emphasise what this property quantifies over."""
+"""C05 -- in-flight events never exceed capacity; none leaks or is handed out twice.
+
+1. TLC: the slot/ownership clauses of the detailed pool specifications (EventPoolStd: SingleOwner, NoNilHandout, Bounded,
+   ZeroAtEnd; EventPoolLowMem: Bounded, CounterSound) exhaustively, plus the pool part of specs/Pipeline.tla (see C01).
+2. Real pools: holder-counting stress on capacities 1..3 with 4 and 16 concurrent readers, both pool kinds, and a
+   get/back cycle for every size-class boundary up to 2^31 (in use back to exactly zero, no slot lost).
+3. The shared pipeline scenarios of checks/C01.py at capacities 1..3 with refusals, holds, splits: ownership and the
+   pool's own counter are evaluated by TLC on every recorded step (PipelineMon).
+"""
 import importlib.util
+import json
 import os
+
+import core
+import vlib
 
 LEVEL = "model_checking"
 PID = "C05"
@@ -11,13 +20,38 @@ _spec = importlib.util.spec_from_file_location("c01", os.path.join(os.path.dirna
 _c01 = importlib.util.module_from_spec(_spec)
 _spec.loader.exec_module(_c01)
 
-FAMILIES = {
-    "C02": (("commit", 150, 800), ("pool", 40, 200)),
-    "C05": (("pool", 150, 800), ("commit", 40, 200)),
-    "C08": (("batch", 120, 600), ("commit", 60, 300)),
-    "C09": (("retry", 180, 900),),
-}
-
 
 def run(ctx):
-    _c01.run(ctx, pid=PID, families=FAMILIES[PID])
+    thorough = ctx.tier == "thorough"
+    ctx._core_bin = ctx.go_test_build("pipeline")
+    ctx.tlc_expect_ok("EventPoolStd", "EventPoolStd_ok.cfg", timeout=900, deadlock=False,
+                      overrides={"Capacity": "2", "Getters": '{"g1", "g2", "g3"}', "Rounds": "2" if thorough else "1"}, name="EventPoolStd/slots")
+    ctx.tlc_expect_ok("EventPoolLowMem", "EventPoolLowMem_fixed.cfg", timeout=900, deadlock=False,
+                      overrides={"Capacity": "2"} if thorough else None, name="EventPoolLowMem/counter")
+    out = os.path.join(ctx.scratch, "c05_pools.json")
+    rc, txt = ctx.run_bin(ctx._core_bin, "^TestVerifC05Pools$", env={"VERIF_OUT": out}, timeout=1200)
+    if rc != 0 or not os.path.exists(out):
+        crash = core.classify_crash(txt)
+        if crash is None:
+            raise vlib.Infra("C05 pool harness failed rc=%s:\n%s" % (rc, txt[-3000:]))
+        ctx.classify([crash])
+    else:
+        recs = []
+        res = json.load(open(out))
+        for r in res:
+            ctx.evaluations += 1
+            if r["family"] == "stress":
+                ctx.extra["pool_stress_gets"] = ctx.extra.get("pool_stress_gets", 0) + r["gets"]
+                if r["max_held"] > r["capacity"]:
+                    recs.append({"kind": "pool_over_capacity", "pool": r["pool"], "capacity": r["capacity"], "max_held": r["max_held"], "readers": r["readers"]})
+                if r["double_owner"]:
+                    recs.append({"kind": "pool_double_owner", "pool": r["pool"], "capacity": r["capacity"], "count": r["double_owner"]})
+                if r["inuse_end"] != 0 or r["waiters_end"] != 0:
+                    recs.append({"kind": "pool_not_zero_at_idle", "pool": r["pool"], "capacity": r["capacity"], "inuse": r["inuse_end"], "waiters": r["waiters_end"]})
+            else:
+                if r["blocked"] or r["inuse_end"] != 0:
+                    recs.append({"kind": "pool_slot_leaked", "pool": r["pool"], "size": r["size"], "blocked": r["blocked"], "inuse": r["inuse_end"]})
+        ctx.classify(recs)
+        ctx.sample(res[0])
+        ctx.traces_validated += len(res)
+    _c01.run(ctx, pid=PID, families=(("pool", 150, 800), ("commit", 40, 200)))
